@@ -161,6 +161,24 @@ CLAIMED = {
         "semantics of the printed shapes as written in Lang/RecordOps.v; g++/javac for the judge. Five defects repaired (14a62e6, ebe4a26, "
         "d28ab69, 435354f, 149d679).",
    technique="Coq proof by induction over field lists on the translated templates (deep embedding of Jinja) + order-theoretic proofs + vm_compute correspondences + compile-and-run judge", design="7/C09"),
+ 'C07': dict(
+   text="Specification fragments in Coq (Lang/Jvm.v): descriptor of a Java source type (generics erased, java.lang implicit, arrays), method "
+        "descriptor, JNI short native name (mangling), C type of a descriptor. Model of jni/type.py and of java/type.py's type strings "
+        "(Marshal/Jni.v). Theorems: every built-in row of the external-type tables REGENERATED from /repo has JNI signature = descriptor of "
+        "its Java type, plain and boxed (finite, vm_compute); for ALL packages and names L<class_descriptor>; = descriptor of <package>.<Name>; "
+        "flags = EnumSet; for ANY parameter list / result / async flag the signature string passed to jniGetMethodID equals the descriptor "
+        "of the Java member as the Java side writes its types (optional => boxed on both sides, generic arguments erased, async => "
+        "CompletableFuture), likewise every field lookup; jni_prefix = Java_ + mangle(binary class name) and the exported proxy symbol = "
+        "the JNI short name of the native method for all identifier segments; C parameter/result types fit the descriptors, optional "
+        "primitives are jobject. Ties: K-jni runs the model on the attributes of the real marshalling objects for every method, field and "
+        "declaration of generated programs under 3 identifier-style/package configurations and checks the implementation values against "
+        "the specification in the same vm_compute run; an independent judge compiles the generated Java (javac), reads classes, members, "
+        "descriptors and native methods with javap -s -p and compares with every jniFindClass / jniGet*ID literal and JNIEXPORT prototype "
+        "scraped from the generated JNI sources. Systematic programs cover every pool type x optional x parameter/result x sync/async x "
+        "(+cpp | +java | both).",
+   note="Trusted: Coq kernel+vm_compute; javac/javap; the scraper; Lang/Jvm.v as transcription of JVMS 4.3 / JNI mangling. Seven defects "
+        "repaired (f4862d1, 988aa46, c98a583, e387bc4 and three more, see known_findings.json); known finding C07-K1 (independent identifier-style settings).",
+   technique="Coq proofs over all parameter lists / names against a JVM-descriptor and JNI-mangling specification + vm_compute correspondence + javac/javap judge", design="7/C07"),
 }
 PENDING_REASON = "check not built yet in this session (work in progress; see DESIGN.md section 10 build order)"
 HOOK_COMMITS = []
